@@ -868,7 +868,7 @@ func c16Gen(r *Rng, tier string, n int) []Case {
 
 	// 2. exhaustive table keyword x value x context: every value of the keyword's own family plus a fixed
 	//    cross-family sample.  Quick tier: the primary context gets every value, the other contexts a
-	//    rotating third; thorough: everything (and the full cross product of families).
+	//    rotating quarter; thorough: everything (and the full cross product of families).
 	cross := []string{"0", "1", "-1", "16", "8", "100", "true", "false", "TRUE", "red", "Red", "#fff", "NaN", "circle", "none", "mono",
 		"up", "dots", "uppercase", " ", "x", "0.5", "1e0", "triangle", "default", "linear-gradient(red, blue)", "\xff", "ſ"}
 	for ki, k := range c16Kws {
@@ -891,7 +891,7 @@ func c16Gen(r *Rng, tier string, n int) []Case {
 		}
 		for ci, ctx := range c16CtxsFor(k) {
 			for vi, v := range vals {
-				if tier != "thorough" && ci > 0 && (vi+ki+ci)%3 != 0 {
+				if tier != "thorough" && ci > 0 && (vi+ki+ci)%4 != 0 {
 					continue
 				}
 				f := fam[v]
